@@ -29,7 +29,12 @@ SPEC = {
         "name": "searches", "group": "hsearch", "key": "SEARCH", "tags": ["C04"],
         "n_quick": 224, "n_thorough": 20000, "min_per_shard": 14, "timeout": 6000,
         "nontrivial": search_nontrivial, "stat": search_stat,
-    }, session_tie(["C04"])],
+    }, session_tie(["C04"]), {
+        # oracle only (no model side): deeper searches than the extracted model can follow
+        "name": "deep-searches-oracle-only", "group": "hsearch", "key": "SEARCHDEEP", "model": False, "tags": ["C04"],
+        "n_quick": 1200, "n_thorough": 60000, "min_per_shard": 40, "timeout": 6000, "search_factor": 2,
+        "nontrivial": search_nontrivial, "stat": search_stat,
+    }],
     "rule": "regression corpus (checkmated / stalemated roots, mate-in-one roots, repetition history, warmed tables) + seeded "
             "cases: a game (random or biased legal playout from the start position or a curated FEN) searched at 1-3 successive "
             "points with depth 1-3 (1 in 12: depth 4), each with cancellation never / at poll 0 / at a random poll, all searches of a "
@@ -38,7 +43,9 @@ SPEC = {
             "hashfull, PV), aspiration re-search lines, node and poll counters - compared with the extracted search model; the oracle "
             "replays the answer and every PV on the engine's own legal-move generator (itself tied to the FIDE specification by C01): "
             "answer legal, null move only without legal moves, PVs legal from the root, answer = head of the last PV; "
-            "non-trivial = at least one info line; distinct = distinct cases." + SESSION_RULE,
+            "non-trivial = at least one info line; distinct = distinct cases. deep-searches-oracle-only: single searches of depth 4-6 from "
+            "positions of uniformly random playouts (cancellation never or at a random poll up to 20000), run on the implementation only and "
+            "judged by the same oracle (answer legal, every printed PV legal move by move, answer = head of the last PV)." + SESSION_RULE,
     "assumptions": ["root positions satisfy the C10 invariant and the material bounds; 'engine-legal' is FIDE-legal by C01",
                     "the clause 'null move only when no legal move exists' is tested by the oracle; its proof needs score-range reasoning (see DESIGN)"],
 }
